@@ -478,6 +478,15 @@ func runC09(c *Ctx) {
 				reqs = append(reqs, c09Req{method: "GET", target: t + "?i32=x", hdr: [][2]string{{"Accept", acc}}, entry: "transcoding", options: "directed-accept"})
 			}
 		}
+		// JSON client streams whose body ends INSIDE a message, at every cut of a two-message body
+		{
+			full := []byte(`{"name":"a","nested":{"s":"x"}}{"name":"b\\"}`)
+			for cut := 0; cut <= len(full); cut++ {
+				for _, eofd := range []bool{false, true} {
+					reqs = append(reqs, c09Req{method: "POST", target: "/v1/up", hdr: [][2]string{{"Content-Type", "application/json"}}, body: full[:cut], entry: "transcoding", options: "directed-json-cut", eofd: eofd})
+				}
+			}
+		}
 		// compressed request bodies on the STREAMING transcoding routes (a stream codec reads on after
 		// the read that reported end-of-data together with the last bytes), valid, truncated and junk
 		for _, t := range []string{"/v1/up", "/v1/upload/f", "/" + fxPkg + ".Svc/Up"} {
@@ -498,6 +507,7 @@ func runC09(c *Ctx) {
 				}
 			}
 		}
+		directedHangs := 0
 		for _, q := range reqs {
 			for _, mux := range []http.Handler{fxA.Mux, fxB.Mux} {
 				r := httptest.NewRequest(q.method, q.target, &schedReader{data: append([]byte(nil), q.body...), eofWithData: q.eofd})
@@ -519,7 +529,12 @@ func runC09(c *Ctx) {
 					}
 				case <-time.After(5 * time.Second):
 					c.SpecFail("request", q.String(), "still running after 5 s", "a response", "C09/hang/"+q.options, "a request hangs the mux")
+					directedHangs++
 				}
+			}
+			if directedHangs >= 4 { // every hang costs the watchdog's 5 s (and leaves a goroutine behind): enough is shown
+				c.Note("directed requests: stopped after 4 hangs")
+				break
 			}
 		}
 	}
